@@ -140,17 +140,25 @@ def broken_obligations(ctx: Ctx) -> list[dict]:
 def run_check(prop: str, tier: str, seed: int) -> int:
     ctx = Ctx(prop, tier, seed)
     os.environ["PYTHONHASHSEED"] = "0"
-    try:
-        mod = importlib.import_module(f"vlib.props.{prop}")
-    except ModuleNotFoundError:
-        print(f"no check module for {prop}", file=sys.stderr)
+    from . import parts as _parts
+    import pkgutil
+    names = sorted(m.name for m in pkgutil.iter_modules(_parts.__path__) if m.name.startswith(prop + "_"))
+    if not names:
+        print(f"no check parts for {prop}", file=sys.stderr)
         return 2
+    mods = []
     try:
-        regenerate(ctx, getattr(mod, "GENERATORS", []))
-        files = getattr(mod, "PROPS_FILES", None) or sorted(
-            str(p.relative_to(COQ)) for p in (COQ / "Props").glob(f"{prop}*.v"))
+        mods = [importlib.import_module(f"vlib.parts.{n}") for n in names]
+        gens = []
+        for m in mods:
+            for g in getattr(m, "GENERATORS", []):
+                if g not in gens:
+                    gens.append(g)
+        regenerate(ctx, gens)
+        files = sorted(str(p.relative_to(COQ)) for p in (COQ / "Props").glob(f"{prop}*.v"))
         coq_obligations(ctx, files)
-        mod.run(ctx)
+        for m in mods:
+            m.run(ctx)
         # proof obligations or ties that broke without a located failing input
         located = {v.detail.get("broken") for v in ctx.violations}
         targets = {v.target for v in ctx.violations if v.kind == "failing-input"}
@@ -165,4 +173,4 @@ def run_check(prop: str, tier: str, seed: int) -> int:
         print(tb, file=sys.stderr)
         ctx.oblige("harness:internal", False, detail=tb[-1500:])
         ctx.violation("no-failing-input-found", "harness", {"broken": "harness:internal", "detail": tb[-3000:]})
-    return finish(ctx, getattr(mod, "LEVEL_NOTE", ""))
+    return finish(ctx, " | ".join(getattr(m, "LEVEL_NOTE", "") for m in mods if getattr(m, "LEVEL_NOTE", "")))
